@@ -377,10 +377,70 @@ func isStateFnDecl(c *ex.Ctx, fd *ast.FuncDecl) bool {
 	return norm(c.Src(fd.Type.Results.List[0].Type)) == "stateFn"
 }
 
+// canonLocals renames the receiver, the parameters and the local variables of fd — in the order in
+// which they are declared — to the names the recognisers of this extractor are written with, so that
+// a pure renaming in the source changes nothing that is extracted (round 4; it used to degrade to
+// `.unknown`: a false alarm).  An identifier is renamed through its declaration object, so shadowed
+// variables (the inner `err` of readRune) stay distinct; fields, methods, package-level names and
+// anything declared beyond the names given are left alone.
+func canonLocals(fd *ast.FuncDecl, names []string) {
+	if fd == nil || fd.Body == nil {
+		return
+	}
+	order := map[*ast.Object]int{}
+	n := 0
+	ast.Inspect(fd, func(nd ast.Node) bool {
+		if id, ok := nd.(*ast.Ident); ok && id.Obj != nil && id.Obj.Kind == ast.Var && id.Name != "_" && id.Obj.Pos() == id.Pos() {
+			if _, seen := order[id.Obj]; !seen {
+				order[id.Obj] = n
+				n++
+			}
+		}
+		return true
+	})
+	ast.Inspect(fd, func(nd ast.Node) bool {
+		if id, ok := nd.(*ast.Ident); ok && id.Obj != nil {
+			if i, ok := order[id.Obj]; ok && i < len(names) && names[i] != "" {
+				id.Name = names[i]
+			}
+		}
+		return true
+	})
+}
+
+// the names the recognisers expect, per function, in declaration order (receiver and parameters first)
+var canonNames = map[string][]string{
+	"escapeDispatch": {"p", "r", "esc"},
+	"csiDispatch":    {"p", "r", "csi", "ps", "param", "i", "b"},
+	"hook":           {"p", "r", "paramStr", "params", "param", "val", "err"},
+	"print":          {"p", "r", "bldr", "rest", "grapheme", "w", "nextRune", "size"},
+	"readRune":       {"p", "r", "size", "err", "b", "err"},
+	"run":            {"p", "r"},
+	"emit":           {"p", "seq"},
+	"anywhere":       {"r", "p", "gen"},
+}
+
 func gen(c *ex.Ctx) {
 	f := c.Parse("ansi/parser.go")
 	if f == nil {
 		return
+	}
+	for _, d := range f.Decls {
+		fd, ok := d.(*ast.FuncDecl)
+		if !ok {
+			continue
+		}
+		if names, ok := canonNames[fd.Name.Name]; ok {
+			canonLocals(fd, names)
+		} else if isStateFnDecl(c, fd) {
+			canonLocals(fd, []string{"r", "p"})
+		} else if fd.Recv != nil && len(fd.Recv.List) == 1 && norm(c.Src(fd.Recv.List[0].Type)) == "*Parser" {
+			for _, m := range actionMethods {
+				if m.name == fd.Name.Name {
+					canonLocals(fd, []string{"p", "r"})
+				}
+			}
+		}
 	}
 	genActs(c, f)   // Gen/ParserActs.lean: written first and unconditionally (it degrades, never fails)
 	genReader(c, f) // Gen/ParserReader.lean: readRune and print as statement skeletons (degrades, never fails)
